@@ -3,4 +3,9 @@ from checks import stage_check
 
 
 def main(tier, t0):
-    return stage_check.main("C02", tier, t0, explanation="per path: key present <=> fl(count/N) >= t decided by z3 for every candidate key of every class; no duplicate keys; one shape per class.")
+    tasks = stage_check.tasks_for("C02", tier)
+    # target_classes selection (requested classes first, an instance-less requested class, a non-requested class that is not tracked)
+    tasks += [(m, f, "targets/" + ob, dict(kw, cfg={"targets": ["Zzz", "C", "D"]})) for (m, f, ob, kw) in
+              stage_check.tasks_for("C02", tier, structure_filter=lambda st: st["name"] in ("ref-vs-iri", "two-refs", "multi-typed", "opt-literal", "own-links"),
+                                    sizes=lambda t, k: [3] if t == "quick" else [2, 3, 4, 5])]
+    return stage_check.main("C02", tier, t0, tasks=tasks, explanation="per path: key present <=> fl(count/N) >= t decided by z3 for every candidate key of every class; no duplicate keys; one shape per class.")
